@@ -25,7 +25,11 @@ RULE = (
     "DAG programs w=r1(X), z=r2(Y), f=g(w,z), f o w and w o f (o in + - * /; g over + - * / ** "
     "and all maximum pairings, both operand orders) in which the object w is used twice; every "
     "operand of every operation is fingerprinted before and after (purity oracle); every "
-    "program containing a letter with a guarded derivative formula (l2_norm, safe_power, abs, "
+    "letter(X) and letter2(letter1(X)) with letter1 format-preserving (minus, +-*/ scalar) "
+    "also for leaves X = AdArray(J z0, J) whose Jacobian J is supplied directly in dia "
+    "(banded / shifted off-diagonals), bsr, lil, dok, coo with duplicates, csr with unsorted "
+    "indices and explicit zeros, csc; square n x n and wide n x 2n (oracle: affine function "
+    "of hidden independents z); every program containing a letter with a guarded derivative formula (l2_norm, safe_power, abs, "
     "heaviside*, characteristic_function, maximum) additionally at special points with exact "
     "0.0 / 1.0 / -1.0 entries (single zero component in every position of non-zero 2- and "
     "3-vectors); each "
@@ -44,13 +48,14 @@ ASSUMPTIONS = [
     "tolerance 1e-7 x (largest magnitude of any intermediate value or derivative of the reference); measured round-off floor over the whole thorough space: 3.9e-11 (tan(exp(exp(X))))",
 ]
 BOUNDS = {
-    "quick": "DAG programs over 16 x 4 representative sub-results, n in {3,4}; depth <= 2 chains over the full letter alphabet, n in {1,3,4}, 5 points; joins over 14x14 representatives x 6 ops, n in {3,4}; sympy self-check of the oracle (depth 1 at n=2,3; depth 2 at n=3)",
-    "thorough": "DAG programs over 16 x 16 representative sub-results, n in {2,3,4,6}; depth <= 2 chains over the full letter alphabet, n in {1,2,3,4,6}, 9 points; joins op(l1(X), l2(Y)) over the full alphabet squared x 6 ops, n in {3,4}, and over 14x14 representatives for all n; depth-3 chains l3(r2(r1(X))) with l3 over the full alphabet and r1, r2 over 13 representatives, n in {3,4}; sympy self-check n in {2,3}",
+    "quick": "directly constructed leaves in 8 storage formats x {4x4, 3x6} x 8 format-preserving inner letters x full outer alphabet; DAG programs over 16 x 4 representative sub-results, n in {3,4}; depth <= 2 chains over the full letter alphabet, n in {3,4}, 5 points; joins over 14x14 representatives x 6 ops, n in {3,4}; sympy self-check of the oracle (depth 1 at n=2,3; depth 2 at n=3)",
+    "thorough": "directly constructed leaves in 8 storage formats x {2,3,4 square; 3,4 wide} x 8 inner letters x full outer alphabet, plus joins over the representatives; DAG programs over 16 x 16 representative sub-results, n in {2,3,4,6}; depth <= 2 chains over the full letter alphabet, n in {1,2,3,4,6}, 9 points; joins op(l1(X), l2(Y)) over the full alphabet squared x 6 ops, n in {3,4}, and over 14x14 representatives for all n; depth-3 chains l3(r2(r1(X))) with l3 over the full alphabet and r1, r2 over 13 representatives, n in {3,4}; sympy self-check n in {2,3}",
 }
 MIN_CLASSES = 6
 TOL = 1e-7
 
-SIZES = {"quick": (1, 3, 4), "thorough": (1, 2, 3, 4, 6)}
+SIZES = {"quick": (3, 4), "thorough": (1, 2, 3, 4, 6)}
+LEAF_SIZES = {"quick": {"sq": (4,), "wide": (3,)}, "thorough": {"sq": (2, 3, 4), "wide": (3, 4)}}
 JOIN_SIZES = {"quick": (3, 4), "thorough": (1, 2, 3, 4, 6)}
 DEEP_SIZES = (3, 4)
 
@@ -81,6 +86,14 @@ def cases(tier):
     for n in JOIN_SIZES[tier]:
         for i in range(len(G.JOIN_REPS)):
             out.append({"kind": "join", "n": n, "left": i, "tier": tier})
+    for fmt in G.LEAF_FORMATS:
+        for shape in G.LEAF_SHAPES:
+            for n in LEAF_SIZES[tier][shape]:
+                for i in range(len(G.LEAF_INNER)):
+                    out.append({"kind": "leaf", "n": n, "fmt": fmt, "shape": shape, "inner": i, "tier": tier})
+                if tier == "thorough":
+                    for i in range(len(G.JOIN_REPS)):
+                        out.append({"kind": "leafjoin", "n": n, "fmt": fmt, "shape": shape, "left": i, "tier": tier})
     for n in JOIN_SIZES["quick"] if tier == "quick" else (2, 3, 4, 6):
         for i in range(len(G.DAG_REPS)):
             out.append({"kind": "dag", "n": n, "left": i, "tier": tier})
@@ -119,7 +132,11 @@ def _programs(case):
                 progs = [G.apply_letter(l, base) for l in L]
             else:
                 progs = [G.apply_letter(l, base) for l in DEEP_REPS]
-    elif case["kind"] == "join":
+    elif case["kind"] == "leaf":
+        li = G.LEAF_INNER[case["inner"]]
+        base = ["X"] if li is None else G.apply_letter(li, ["X"])
+        progs = [G.apply_letter(l, base) for l in L]
+    elif case["kind"] in ("join", "leafjoin"):
         left = ["X"] if G.JOIN_REPS[case["left"]] is None else G.apply_letter(G.JOIN_REPS[case["left"]], ["X"])
         for r in G.JOIN_REPS:
             right = ["Y"] if r is None else G.apply_letter(r, ["Y"])
@@ -199,10 +216,23 @@ def run_case(case) -> Outcome:
     guarded = [p for p in progs if G.ops_in(p) & G.GUARDED]
     nviol = 0
     for k, (x, y) in enumerate(pts):
-        X0, Y0 = pp.ad.initAdArrays([x, y])
+        affine = None
+        if case["kind"] in ("leaf", "leafjoin"):
+            # leaves with user-supplied Jacobians: X = Jx z, Y = Jy z, z hidden independents
+            Jx, Jy = G.leaf_dense_jacobians(case["fmt"], case["shape"], n)
+            z0 = x if case["shape"] == "sq" else np.concatenate([x, y])
+            affine = (z0, Jx, Jy)
+            import scipy.sparse as sps
+
+            X0 = pp.ad.AdArray(Jx @ z0, G.leaf_sparse(case["fmt"], Jx))
+            Y0 = pp.ad.AdArray(Jy @ z0, sps.csr_matrix(Jy))
+            if X0.jac.format != G.leaf_sparse(case["fmt"], Jx).format:
+                raise RuntimeError("AdArray changed the storage format of the supplied Jacobian")
+        else:
+            X0, Y0 = pp.ad.initAdArrays([x, y])
         # special points (exact 0, +-1 entries) only for programs with a guarded letter
         for p in progs if k < nbase else guarded:
-            orc = G.Oracle(x, y)
+            orc = G.Oracle(x, y, affine)
             try:
                 val, jac = orc.run(p)
             except G.Skip as s:
@@ -248,7 +278,8 @@ def run_case(case) -> Outcome:
                 mask = np.ones_like(jac, dtype=bool)
                 for i in range(min(m, n)):
                     mask[i, i] = False
-                    mask[i, n + i] = False
+                    if n + i < jac.shape[1]:
+                        mask[i, n + i] = False
                 offdiag = bool(np.any(np.abs(jac[mask]) > 0))
             ops = G.ops_in(p)
             key = (G.show(p), n) if (offdiag or len(ops) >= 2) else None
@@ -272,9 +303,4 @@ def known_finding(case, viol):
         # matrix utilities do not support: only the known exceptions are downgraded; a wrong
         # value or any other exception on such a program stays a violation.
         return "C01-sparray-jacobian"
-    if "safe_power" in prog and what == "Jacobian differs from true derivative":
-        return "C01-safe-power-jacobian"
-    if "[" in prog and what == "evaluation raised" and ("not subscriptable" in err or err.startswith("NotImplementedError")):
-        # row slicing of an AdArray whose Jacobian is stored in coo / bsr / dia format
-        return "C01-getitem-unindexable-jacobian"
     return None
